@@ -98,6 +98,24 @@ theorem rebase_rejects_long (cfg : Cfg) (ts : List Txn) (rev app : List Blk)
     (h : cfg.maxReorg < rev.length + app.length) : rebase cfg ts (some (rev, app)) = none :=
   rebase_none_of_long cfg ts rev app h
 
+/-- **acceptance**: a set valid at `from` (core accepts every proof; the verifier is sound: an
+accepted proof means the ledger at `from` holds the element at that leaf) is moved over ANY path
+within the supported distance, provided no reverted block created an input of the set and the
+path's blocks are consistent with the ledgers they meet (`RevPathWF2`: what a reverted block created
+lies at or beyond its parent's leaf count and everything else the ledger holds below it;
+`AppLeaves`: leaf counts do not shrink along the apply leg and created elements lie below the count
+of their block).  Together with the `rebase_rejects_*` theorems: a rebase of a valid set fails only
+for an unknown index, too long a path, or an element created on the abandoned branch. -/
+theorem rebase_accepts (cfg : Cfg) (ts : List Txn) (rev app : List Blk) (lfrom : Ledger)
+    (hb : ts.all basisOk = true) (hlen : rev.length + app.length ≤ cfg.maxReorg)
+    (hbasis : ∀ t ∈ ts, ∀ i ∈ t.inputs, ∀ lf, i.leaf = some lf → i.bad = false → lfrom.leafOf i.elem = some lf)
+    (hrev : RevPathWF2 lfrom rev)
+    (hkept : ∀ b ∈ rev, ∀ t ∈ ts, ∀ i ∈ t.inputs, i.elem ∉ ids b.created)
+    (hmid : ∀ e lf, (rev.foldl Ledger.revert lfrom).leafOf e = some lf → lf < (rev.foldl Ledger.revert lfrom).numLeaves)
+    (happ : AppLeaves (rev.foldl Ledger.revert lfrom).numLeaves app) :
+    (rebase cfg ts (some (rev, app))).isSome = true :=
+  Verif.Pool.rebase_accepts cfg ts rev app lfrom hb hlen hbasis hrev hkept hmid happ
+
 /-- an element that does not exist below a reverted block (it was created on the abandoned branch) -/
 theorem rebase_rejects_vanished (cfg : Cfg) (ts : List Txn) (rev app : List Blk) (b : Blk) (hb : b ∈ rev)
     (t : Txn) (ht : t ∈ ts) (i : Inp) (hi : i ∈ t.inputs) (lf : Nat) (hl : i.leaf = some lf) (hge : b.leavesBefore ≤ lf) :
@@ -204,5 +222,32 @@ example :
     rebase cfg0 [tC] (some ([⟨5, 3, 6, [], [], [], []⟩], [])) = some [tC] ∧
     rebase cfg0 [tQ] (some ([⟨5, 4, 6, [], [], [], [(11, 4)]⟩], [])) = none := by
   decide
+
+/-- non-vacuity of `rebase_accepts`: `[parent, child, other]` valid on a ledger holding elements 10
+and 11 at leaves 3 and 4, moved back over a block that created nothing of it and forward over two
+blocks -/
+example :
+    let lfrom : Ledger := ⟨[(10, 3), (11, 4), (60, 5)], 6, 5⟩
+    let bRev : Blk := ⟨5, 5, 6, [], [], [], [(60, 5)]⟩
+    (rebase cfg0 [tP, tC, tQ] (some ([bRev], [bOther, bConf]))).isSome = true := by
+  intro lfrom bRev
+  apply rebase_accepts cfg0 [tP, tC, tQ] [bRev] [bOther, bConf] lfrom (by decide) (by decide)
+  · intro t ht i hi lf hlf _
+    simp only [List.mem_cons, List.not_mem_nil, or_false] at ht
+    rcases ht with rfl | rfl | rfl <;> simp [tP, tC, tQ] at hi <;> subst hi <;> simp at hlf <;> subst hlf <;> decide
+  · refine ⟨⟨?_, by decide⟩, ?_, trivial⟩
+    · intro p hp
+      simp only [bRev, List.mem_cons, List.not_mem_nil, or_false] at hp
+      subst hp; exact ⟨by decide, by decide⟩
+    · intro e lf he hn
+      have := lookup_some_mem e lf _ he
+      simp only [lfrom, List.mem_cons, Prod.mk.injEq, List.not_mem_nil, or_false] at this
+      rcases this with ⟨rfl, rfl⟩ | ⟨rfl, rfl⟩ | ⟨rfl, rfl⟩
+      · decide
+      · decide
+      · exact absurd (by decide) hn
+  · decide
+  · exact leaves_lt_of_all _ _ (by decide)
+  · exact ⟨by decide, by decide, by decide, by decide, trivial⟩
 
 end Verif.C13
